@@ -63,7 +63,7 @@ func main() {
 	o.MaxBlocks = 12
 	caches := map[*gen.Tree]map[int]map[string]rec{}
 	hist.NonTrivial = func(s *hist.SUT) bool { return s.Stats["walk.crossfork"] > 0 && s.Stats["snap.pending"] > 0 }
-	hist.RunHistoriesX(r, nh, o, hist.StepOpts{Reopen: true, Pool: true, Mine: true}, 12, 40, nil, func(s *hist.SUT, op hist.Op) []hist.Problem {
+	hist.RunHistoriesX(r, nh, o, hist.StepOpts{Reopen: true, Pool: true, Mine: true, Engine: true}, 12, 40, nil, func(s *hist.SUT, op hist.Op) []hist.Problem {
 		if ps := hist.MustSucceed(op); len(ps) > 0 {
 			return ps
 		}
